@@ -638,8 +638,20 @@ theorem callSeq_unsaturated (s pm : ℝ) (pins : List ℝ) (h : ∀ p ∈ pins, 
     rw [(effGain_eq_set_iff s pm p).2 (h p (by simp))]
     exact ih (fun q hq => h q (by simp [hq]))
 
-/-- the `effective_gain` attribute only ever decreases: a reduction made by one call is still in force for all
-later calls of the same object (the code's behaviour; see the report — outside C04's quantifier) -/
+/-- every call of one amplifier object applies the set gain reduced only as far as ITS spectrum needs, whatever was
+propagated before or after -/
+theorem callGains_history_free (s pm p : ℝ) (pre post : List ℝ) :
+    (callGains s pm (pre ++ p :: post))[pre.length]? = some (effGain s pm p) := by
+  simp [callGains]
+
+/-- counter-model of the repaired defect: when the clamped value overwrites the set gain, a cold spectrum after a hot
+one is amplified less than it should be (set 20, p_max 23: +10 dBm then −10 dBm gives 13 dB, not 20 dB) -/
+theorem callSeq_leaks_example : callSeq (20 : ℝ) 23 [10, -10] = 13 ∧ callGains (20 : ℝ) 23 [10, -10] = [13, 20] := by
+  simp only [callSeq, callGains, effGain, smin, List.map]
+  norm_num
+
+/-- counter-model: the written-back `effective_gain` only ever decreases, a reduction made by one call stays in force for
+all later calls of the same object -/
 theorem callSeq_persists (s pm p : ℝ) (ps : List ℝ) : callSeq s pm (p :: ps) ≤ effGain s pm p :=
   callSeq_le_set (effGain s pm p) pm ps
 
